@@ -143,6 +143,30 @@ pub fn gen_key(rng: &mut Rng, prev: Option<&[u8]>, maxlen: usize) -> Vec<u8> {
 
 /// a strictly increasing (under `cmp`) entry set
 pub fn gen_entries(rng: &mut Rng, cmp: &CmpKind, max_n: usize, max_val: usize) -> Vec<(Vec<u8>, Vec<u8>)> {
+    // one set in five: long structured keys (8..40 bytes): a common prefix, a short varying part, a
+    // common suffix - differences fall at every alignment inside long runs of equal bytes
+    if rng.chance(1, 5) {
+        let n = rng.range(2, max_n.max(2).min(40));
+        let prefix = { let l = rng.below(12); rng.bytes(l, &[b'u', b'/', b'0', 0xff]) };
+        let suffix = { let l = rng.below(20); rng.bytes(l, &[b'/', b'n', b'0', 0x00, 0xff]) };
+        let mut keys: Vec<Vec<u8>> = (0..n)
+            .map(|_| {
+                let mut k = prefix.clone();
+                let vl = rng.range(1, 3);
+                k.extend(rng.bytes(vl, &[b'0', b'1', b'2', b'a', 0xfe, 0xff]));
+                if rng.chance(3, 4) {
+                    k.extend_from_slice(&suffix);
+                }
+                k
+            })
+            .collect();
+        keys.sort();
+        keys.dedup();
+        if *cmp == CmpKind::Reverse {
+            keys.reverse();
+        }
+        return keys.into_iter().map(|k| { let vl = rng.below(6); (k, rng.any_bytes(vl)) }).collect();
+    }
     let n = match rng.below(8) {
         0 => 0,
         1 => 1,
